@@ -533,6 +533,74 @@ func TestC13(t *testing.T) {
 			}
 		}
 	}
+	// ---- a refused Return behind a well-formed When on a target that already has a default: the condition never came
+	//      to be, so a call with exactly the condition's arguments is served by the default like any other call
+	for _, tg := range targets {
+		if tg.isIface || tg.cbType.IsVariadic() {
+			continue
+		}
+		ins, outs := sig(tg.cbType)
+		skip := 0
+		if tg.name == "T.M" {
+			skip = 1
+		}
+		var bads []([]interface{})
+		for i := range outs {
+			if outs[i].Kind() == reflect.Interface {
+				continue
+			}
+			vs := make([]interface{}, len(outs))
+			for j := range vs {
+				vs[j] = goodValue(outs[j])
+			}
+			vs[i] = badValue(outs[i])
+			bads = append(bads, vs)
+		}
+		if len(outs) > 1 {
+			bads = append(bads, []interface{}{goodValue(outs[0])}) // too few
+		}
+		for bi, bad := range bads {
+			b0 := mocker.Create()
+			tg.prepare(b0)
+			as := make([]interface{}, len(ins)-skip)
+			callArgs := make([]reflect.Value, 0, len(ins))
+			if skip == 1 {
+				callArgs = append(callArgs, reflect.ValueOf(&T{}))
+			}
+			for i := range as {
+				as[i] = goodValue(ins[skip+i])
+				v := reflect.New(ins[skip+i]).Elem()
+				if as[i] != nil {
+					v.Set(reflect.ValueOf(as[i]))
+				}
+				callArgs = append(callArgs, v)
+			}
+			call := func() (out string) {
+				defer func() {
+					if r := recover(); r != nil {
+						out = fmt.Sprintf("panic: %v", firstLine13(r))
+					}
+				}()
+				rs := reflect.ValueOf(tg.fn).Call(callArgs)
+				return fmt.Sprint(rs[0].Interface())
+			}
+			before := call()
+			var perr interface{}
+			func() {
+				defer func() { perr = recover() }()
+				tg.handle(b0).When(as...).Return(bad...)
+			}()
+			rep.Eval(2)
+			c := map[string]interface{}{"target": tg.name, "mistake": "when-then-bad-return", "detail": fmt.Sprint(bad)}
+			rep.Class(fmt.Sprintf("%s/when-then-bad-return/%d", tg.name, bi))
+			if perr == nil {
+				rep.Violate("C13/mistake-accepted", fmt.Sprintf("%s: When(%v).Return(%v) was not rejected", tg.name, as, bad), c)
+			} else if after := call(); after != before {
+				rep.Violate("C13/refused-clause-left-behind", fmt.Sprintf("%s (default Return(55) in place): When(%v).Return(%v) was refused (%v), yet a call with those arguments now gives %q instead of %q", tg.name, as, bad, firstLine13(perr), after, before), c)
+			}
+			b0.Reset()
+		}
+	}
 	// ---- mistakes that are not tied to a well-formed handle
 	misc := []mistake{
 		{"non-function-target", "Func(5)", func(b *mocker.Builder) { b.Func(5).Return(1) }},
@@ -558,6 +626,14 @@ func TestC13(t *testing.T) {
 		}},
 		{"unknown-method", "Interface(&iv).Method(Nope).As.Return", func(b *mocker.Builder) {
 			b.Interface(&iv).Method("Nope").As(func(ctx *mocker.IContext, a int, s string) int { return 0 }).Return(1)
+		}},
+		// callbacks whose function type PRINTS like the target's, with a function-local type that shadows the name of the
+		// package-level one and has another size
+		{"callback-signature", "Func(F5).Apply: first parameter is a local type named P2, 8 instead of 16 bytes", func(b *mocker.Builder) {
+			b.Func(F5).Apply(shadowCallbacks()[0])
+		}},
+		{"callback-signature", "Func(F5).Apply: first result is a local type named P2, 24 instead of 16 bytes", func(b *mocker.Builder) {
+			b.Func(F5).Apply(shadowCallbacks()[1])
 		}},
 		{"unknown-symbol", "ExportFunc(nope).Apply", func(b *mocker.Builder) { b.ExportFunc("nope").Apply(func() {}) }},
 		{"unknown-symbol", "ExportFunc(nope).As", func(b *mocker.Builder) { b.ExportFunc("nope").As(func() {}).Return() }},
@@ -692,4 +768,20 @@ func firstLine13(v interface{}) string {
 		s = s[:i]
 	}
 	return s
+}
+
+type outerP2 = P2
+
+// shadowCallbacks: inside this function P2 is another type; fmt prints both as c13.P2
+func shadowCallbacks() []interface{} {
+	var out []interface{}
+	{
+		type P2 struct{ X int }
+		out = append(out, func(p P2, n int) (outerP2, int) { return outerP2{}, 0 })
+	}
+	{
+		type P2 struct{ X, Y, Z int }
+		out = append(out, func(p outerP2, n int) (P2, int) { return P2{}, 0 })
+	}
+	return out
 }
